@@ -500,4 +500,16 @@ theorem civilFromDays_injective (a b : Int) (h : Spec.civilFromDays a = Spec.civ
   rw [h] at ha
   exact ha.symm.trans hb
 
+/-- **calendar round trip, dates**: the day count the specification assigns to a calendar date
+(`1 ≤ m ≤ 12`, `1 ≤ d ≤` days of that month, leap years by the Gregorian rule; any year) maps back
+to that date. Together with `calendar_roundtrip`: day counts and calendar dates are in bijection. -/
+theorem calendar_roundtrip_date (y m d : Int) (hv : Spec.ValidDate y m d) :
+    Spec.civilFromDays (Spec.daysFromCivil y m d) = (y, m, d) :=
+  Spec.civilFromDays_daysFromCivil y m d hv
+
+/-- distinct calendar dates have distinct day counts -/
+theorem daysFromCivil_injective (y m d y' m' d' : Int) (hv : Spec.ValidDate y m d) (hv' : Spec.ValidDate y' m' d')
+    (h : Spec.daysFromCivil y m d = Spec.daysFromCivil y' m' d') : (y, m, d) = (y', m', d') := by
+  rw [← calendar_roundtrip_date y m d hv, ← calendar_roundtrip_date y' m' d' hv', h]
+
 end Tv.C16
